@@ -400,6 +400,67 @@ async def _udp_cell(position: str, exc_name: str, eager: bool = False) -> dict[s
     return {"nc": 3, "faulty": 2, "stream": False, "events": traces.uniform(events, EVD), "meta": f"UDP{'(eager tasks)' if eager else ''} position={position} exception={exc_name}"}
 
 
+async def _relay_scenario(exc_name: str) -> list[str]:
+    """A relay server: the handlers keep the client objects in a registry and write to each other's.  Client A's handler fails; client B then
+    asks the server to write to A: B's handler must be told at once that A is gone (ClientClosedError) and B keeps being served."""
+    from easynetwork.exceptions import ClientClosedError
+    from easynetwork.protocol import StreamProtocol
+    from easynetwork.serializers.line import StringLineSerializer
+    from easynetwork.servers.handlers import AsyncStreamRequestHandler
+
+    exc_factory = _exceptions()[exc_name]
+    registry: dict[str, Any] = {}
+    problems: list[str] = []
+
+    class Relay(AsyncStreamRequestHandler[str, str]):
+        async def handle(self, client: Any) -> Any:
+            while True:
+                req = yield
+                if req.startswith("iam "):
+                    registry[req[4:]] = client
+                    await client.send_packet("ok")
+                elif req == "crash":
+                    raise exc_factory()
+                elif req.startswith("to "):
+                    _, name, text = req.split(" ", 2)
+                    try:
+                        await registry[name].send_packet(text)
+                        await client.send_packet("sent")
+                    except ClientClosedError:
+                        await client.send_packet("gone")
+                    except OSError:
+                        await client.send_packet("gone")
+                else:
+                    await client.send_packet("pong")
+
+    fx = srvharness.TCPServerFixture(StreamProtocol(StringLineSerializer()), Relay())
+    await fx.start()
+    try:
+        a, b = _LineClient(fx.connect()), _LineClient(fx.connect())
+        await harness.settle()
+        a.send("iam alice")
+        b.send("iam bob")
+        if not (await a.expect("ok") and await b.expect("ok")):
+            problems.append("registration not answered")
+        b.send("to alice hello")
+        if not (await a.expect("hello") and await b.expect("sent")):
+            problems.append("relay to a live client does not work")
+        a.send("crash")
+        await harness.settle()
+        await asyncio.sleep(1)
+        b.send("to alice are you there")
+        if not await b.expect("gone"):
+            problems.append("bob's request to write to the dead client was never answered with 'gone' (his handler is stuck or was taken down)")
+        b.send("ping")
+        if not await b.expect("pong"):
+            problems.append("bob is not served any more after touching the dead client's object")
+        if fx.task is not None and fx.task.done():
+            problems.append("the server stopped")
+    finally:
+        await fx.stop()
+    return problems
+
+
 def _client_addr(client: Any) -> Any:
     from easynetwork.servers.handlers import INETClientAttribute
 
@@ -468,6 +529,21 @@ def run(chk: Check) -> None:
     chk.evaluations = len(rec)
     for t in rec:
         chk.distinct.add(t["meta"])
+    for en in ("ValueError", "ExceptionGroup", "ConnectionResetError", "TimeoutError") if quick else excs:
+        if en == "StreamProtocolParseError":
+            continue
+        try:
+            problems = vloop.run(lambda: _relay_scenario(en), spin_limit=20000)
+        except vloop.VirtualDeadlock as exc:
+            problems = [f"the scenario does not end: {exc}"]
+        chk.traces += 1
+        chk.distinct.add(("relay", en))
+        if problems:
+            chk.violation(
+                {"kind": "relay", "what": "dead_client_object", "exception": en},
+                f"relay server, client A's handler raises {en}, client B's handler then writes to A's client object: {problems}",
+                {"kind": "relay", "exception": en},
+            )
     from . import c17_accept
 
     c17_accept.run(chk)
